@@ -103,6 +103,21 @@ let handle kind c =
               prop "create-count-wrong" (Printf.sprintf "counter %s: value %d, completed %d, begun %d" (tok_of_bytes nm) v completed begun)
           | _ -> prop "one-record-per-name" (Printf.sprintf "counter %s has %d records" (tok_of_bytes nm) (List.length vals))) names
     end
+  | "hm" ->
+    (* two programs, one file name, different metadata: oracle only *)
+    let la = next_int c in let lb = next_int c in let same = next_bool c in
+    let status = next c in let admitted = next_bool c in
+    let hdr = next_bool c in let walk = next_bool c in let n = next_int c in let kept = next_int c in
+    let where = Printf.sprintf "a second program opens the first one's counter file with %s (%d vs %d bytes; it was %s)"
+        (if same then "metadata of the same length but other content" else "metadata of another length") la lb
+        (if admitted then "ADMITTED and recorded its counters" else "refused") in
+    if status <> "ok" then prop "panic" (where ^ ": panic")
+    else begin
+      if not (hdr && walk) then
+        prop "create-not-wellformed" (Printf.sprintf "%s: the first program's file is no longer well formed (header=%b chains=%b)" where hdr walk);
+      if kept < n then
+        prop "create-count-wrong" (Printf.sprintf "%s: only %d of the first program's %d counters are still in the file with their values" where kept n)
+    end
   | k -> diff "unknown-case-kind" ~model:k ~impl:"-"
 
 let () = run_file Sys.argv.(1) handle
